@@ -148,7 +148,9 @@ def run_calc(specdir, drv, tdir, seed, num, workers=4, timeout=900):
             f.write(b.replace('\\"', '"') + "\n")
     tpath = os.path.join(tdir, "shard_calc.ndjson")
     p = subprocess.run([drv, "replaybeh", bpath, tpath], capture_output=True, text=True, env=GOENV, timeout=600)
-    if p.returncode != 0:
+    if p.returncode == 3 and "did not terminate" in p.stderr:
+        log("the driver's watchdog fired during the replay of TLC behaviours: " + p.stderr.strip().splitlines()[-1])
+    elif p.returncode != 0:
         raise Infra("driver replaybeh failed:\n" + p.stdout[-2000:] + p.stderr[-2000:])
     os.remove(bpath)
     return tpath, len(behs)
@@ -171,7 +173,9 @@ def run_classes(specdir, drv, tdir, cfg, workers=4, timeout=1500):
             f.write(b.replace('\\"', '"') + "\n")
     tpath = os.path.join(tdir, "shard_classes.ndjson")
     p = subprocess.run([drv, "replaybeh", bpath, tpath], capture_output=True, text=True, env=GOENV, timeout=900)
-    if p.returncode != 0:
+    if p.returncode == 3 and "did not terminate" in p.stderr:
+        log("the driver's watchdog fired during the replay of the class cases: " + p.stderr.strip().splitlines()[-1])
+    elif p.returncode != 0:
         raise Infra("driver replaybeh (classes) failed:\n" + p.stdout[-2000:] + p.stderr[-2000:])
     os.remove(bpath)
     # large case sets are cut at behaviour boundaries (each behaviour starts with its own SetMode) into parallel shards
@@ -257,6 +261,8 @@ def check_property(pid, tier, seed):
         race_report = None
         if prop.get("race") and (p.returncode == 66 or "WARNING: DATA RACE" in p.stderr):
             race_report = p.stderr[-6000:]
+        elif p.returncode == 3 and "did not terminate" in p.stderr:
+            log("the driver's watchdog fired: " + p.stderr.strip().splitlines()[-1])    # the recorded call is rejected by the trace spec
         elif p.returncode != 0:
             raise Infra("driver gen failed:\n" + p.stdout[-3000:] + p.stderr[-3000:])
         # the witnesses of the known findings listed for this property are re-executed on every run
